@@ -151,6 +151,46 @@ theorem innerStep_InvF {a : ACfg} {s : St} (i : InvF a s) (e : Sess.Ev) : InvF a
     rw [f3]
     exact i.deliv
 
+theorem innerStep_fields (a : ACfg) (s : St) (e : Sess.Ev) :
+    (innerStep a s e).gone2 = s.gone2 ∧ (innerStep a s e).vres2 = s.vres2 ∧
+    (innerStep a s e).q2 = s.q2 ++
+      (entered ((Sess.step (innerCfg a) s.inner e).trace.drop s.inner.trace.length)).filterMap (valOf a) := by
+  unfold innerStep
+  simp only
+  obtain ⟨_, f2, f3, f4, _, _⟩ := feed_fields a
+    (entered ((Sess.step (innerCfg a) s.inner e).trace.drop s.inner.trace.length))
+    { s with inner := Sess.step (innerCfg a) s.inner e,
+             tr := s.tr ++ ((Sess.step (innerCfg a) s.inner e).trace.drop s.inner.trace.length).map .inner }
+  exact ⟨f3, f4, f2⟩
+
+theorem startClose_q2_gone2 (a : ACfg) (s : St) (t : ATid) (p : AProg) :
+    (startClose a s t p).q2 = s.q2 ∧ (startClose a s t p).gone2 = s.gone2 := by
+  unfold startClose
+  obtain ⟨h1, _, h3⟩ := innerStep_fields a { s with evt := some false } .callInitiateClose
+  have hcore := Sess.step_initiateClose_core (innerCfg a) s.inner
+  simp only [Sess.core, Prod.mk.injEq] at hcore
+  have hd : (Sess.step (innerCfg a) s.inner .callInitiateClose).trace.drop s.inner.trace.length = [] := by
+    rw [hcore.2.2.2]; simp
+  constructor
+  · show (innerStep a { s with evt := some false } .callInitiateClose).q2 = s.q2
+    rw [h3]
+    show s.q2 ++ (entered ((Sess.step (innerCfg a) s.inner .callInitiateClose).trace.drop s.inner.trace.length)).filterMap (valOf a) = s.q2
+    rw [hd]; simp [entered]
+  · show (innerStep a { s with evt := some false } .callInitiateClose).gone2 = s.gone2
+    rw [h1]
+
+theorem dispHandle2_q2_gone2 (a : ACfg) (s : St) (v : Nat) :
+    (dispHandle2 a s v).q2 = s.q2 ∧ (dispHandle2 a s v).gone2 = s.gone2 := by
+  unfold dispHandle2
+  split
+  · exact ⟨rfl, rfl⟩
+  · exact ⟨rfl, rfl⟩
+  · exact ⟨rfl, rfl⟩
+  · split
+    · exact ⟨rfl, rfl⟩
+    · exact startClose_q2_gone2 a s _ _
+  · exact ⟨rfl, rfl⟩
+
 /-! ### the close sequence does not touch the flow -/
 
 theorem finishClose_InvF {a : ACfg} {s : St} (i : InvF a s) (t : Sess.Tid) : InvF a (finishClose a s t) :=
